@@ -316,18 +316,18 @@ func (g Gateway) Set(ctx context.Context, in *hydrapb.SetRequest) (*hydrapb.SetR
 				// anonymous function to handle the treasure
 				func() {
 
-					// create the treasure and start the guard (without CreateIfNotExist only an existing treasure
-					// is taken, so that a missing key leaves nothing behind)
-					var treasureInterface treasure.Treasure
-					if swampRequest.GetCreateIfNotExist() {
-						treasureInterface = swampInterface.CreateTreasure(item.Key)
-					} else if existing, getErr := swampInterface.GetTreasure(item.Key); getErr == nil && existing != nil {
-						treasureInterface = existing
-					} else {
+					// the treasure stored under the key with its guard held (without CreateIfNotExist only an existing
+					// treasure is taken, so that a missing key leaves nothing behind); never the object as it was
+					// before the guard was ours - a concurrent delete may have taken that one out of the swamp
+					lock := swampInterface.LockTreasure
+					if !swampRequest.GetCreateIfNotExist() {
+						lock = swampInterface.LockExistingTreasure
+					}
+					treasureInterface, guardID, locked := lock(item.Key)
+					if treasureInterface == nil || (!swampRequest.GetCreateIfNotExist() && !locked) {
 						response = append(response, &hydrapb.KeyStatusPair{Key: item.Key, Status: hydrapb.Status_NOT_FOUND})
 						return
 					}
-					guardID := treasureInterface.StartTreasureGuard(true)
 					defer treasureInterface.ReleaseTreasureGuard(guardID)
 
 					// The two tests above ran without the guard: another request may have created or deleted the
@@ -1938,9 +1938,7 @@ func (g Gateway) Uint32SlicePush(ctx context.Context, in *hydrapb.AddToUint32Sli
 
 		func() {
 
-			treasureObj := swampObj.CreateTreasure(pair.GetKey())
-
-			guardID := treasureObj.StartTreasureGuard(true)
+			treasureObj, guardID, _ := swampObj.LockTreasure(pair.GetKey())
 			defer treasureObj.ReleaseTreasureGuard(guardID)
 
 			if err := treasureObj.Uint32SlicePush(pair.GetValues()); err != nil {
@@ -2004,14 +2002,12 @@ func (g Gateway) Uint32SliceDelete(ctx context.Context, in *hydrapb.Uint32SliceD
 
 		func() {
 
-			// try to load the treasure
-			treasureObj, err := swampObj.GetTreasure(pair.GetKey())
+			// try to load the treasure, with its guard held
+			treasureObj, guardID, ok := swampObj.LockExistingTreasure(pair.GetKey())
 			// the treasure does not exist so we can't delete the slice from it
-			if err != nil {
+			if !ok {
 				return
 			}
-
-			guardID := treasureObj.StartTreasureGuard(true)
 			defer treasureObj.ReleaseTreasureGuard(guardID)
 
 			// a treasure that is not a uint32 slice is a type mismatch: report it and leave it alone
